@@ -289,6 +289,11 @@ def run_r4(ctx, rule):
                     )
                     conv_ok = v[0] == "call" and norm(v[2]).rsplit("::", 1)[-1] in ("from_u32", "from_i32")
                     is_neg = conv_ok and norm(v[2]).endswith("from_i32")
+                    # ... and only when the word was not all digits: a full word always goes on byte-wise (whatever is
+                    # or is not buffered behind it -- the end of the buffered data is not the end of the number)
+                    want_k = 7 if is_neg else 8
+                    gr = guards.holds(f, bi, lambda fa: fa[0] == "cmp" and fa[1] == "Ne" and ("c", want_k) in (fa[2], fa[3]) and any(md(x) for x in (fa[2], fa[3])))
+                    rule.check(bool(gr), "%s/return-%s/only-short-of-a-full-word" % (name, "neg" if is_neg else "pos"), "%s returns without the byte-wise continuation only when fewer than %d digit bytes of the word matched" % (name, want_k), f.loc(bi))
                     rule.check(conv_ok and (signed_form if is_neg else plain), "%s/return-%s" % (name, "neg" if is_neg else "pos"), "%s returns (checked conversion, offset + matched digits%s) [offset %s]" % (name, " + 1 for the sign iff a digit followed" if is_neg else "", sy.show(off)), f.loc(bi))
         if n_ret == 0:
             rule.bad("%s/no-return-tuple" % name, "anchor missing: returned tuple", f.loc(), kind="anchor-missing")
